@@ -315,3 +315,13 @@ PROPS["C16"]["monitors"] = PROPS["C16"]["monitors"] + ["stopsOnInterrupt"]
 PROPS["C16"]["rule"] += " || 'SIGINT is an interruption that stops the build' at scheduler level: " + SCHED_RULE
 PROPS["C16"]["claim"] += (" The last clause (an interrupted command stops the build: nothing is started afterwards) is carried by the scheduler "
     "mode (trace equality with the model, whose run loop returns at the first Interrupted completion, and monitor stopsOnInterrupt).")
+
+PROPS["C10"]["claim"] += (" BYTE LEVEL (Lemmas/EvalSpec): read_eval returns exactly the parts written — literal runs, $var/${var} references, "
+    "the escapes `$ ` `$$` `$:` and $-newline continuations with any indentation — and stops at the newline or path terminator "
+    "(values_read_as_written); hence two texts that differ only in $var versus ${var} spelling are read as the same value "
+    "(var_spelling_independent), and a continuation placed inside a literal does not change any expansion (continuation_placement). "
+    "Statement-level syntax (rule/build/default/pool/include lines as a whole) has no parse-of-rendering theorem; it is tied by the "
+    "correspondence run (two random spellings of every generated manifest).")
+PROPS["C15"]["claim"] += (" BYTE-LEVEL ROUND TRIP (parse_reads_what_was_written): for every depfile of `target: prerequisite ...` entries with any "
+    "spaces before the colon, gaps of spaces and backslash-newline continuations, blank space anywhere and path bytes including "
+    "colons, parse returns exactly the listed targets and prerequisites in order.")
